@@ -212,6 +212,9 @@ pub enum Mutation {
     /// the unmutated .shp / .shx read through the complete Reader next to an attribute table whose header declares
     /// this many rows (it holds as many as the .shp has records, at most 3)
     DbfRows(u32),
+    /// the unmutated files on disk next to a FoxPro attribute table (version byte `version`) with one memo field and
+    /// a memo companion file (.fpt) of 24 bytes whose only memo declares `declared` bytes; read by path
+    Memo { version: u8, declared: u32 },
 }
 
 #[derive(Clone, Debug)]
@@ -241,6 +244,23 @@ fn b32(orig: i32) -> Vec<i32> {
         v.extend([p - 1, p, p + 1, -p, -p - 1, -p + 1, orig.wrapping_add(p), orig.wrapping_sub(p)]);
     }
     v.push(orig.wrapping_add(i32::MIN));
+    // where n * d (d = the size of an item or of a group of per-point blocks) crosses 2^31 resp. 2^32, and
+    // where n * d + (a block header) does
+    for d in [4i64, 8, 12, 16, 20, 24, 28, 32, 36, 40, 48, 56, 64] {
+        for top in [1i64 << 31, 1i64 << 32] {
+            for delta in [-3i64, -2, -1, 0, 1, 2] {
+                let n = top / d + delta;
+                if n > 0 && n <= i32::MAX as i64 {
+                    v.push(n as i32);
+                }
+            }
+            // the middle of the band between two thresholds
+            let mid = (top / d + top / (d + 8)) / 2;
+            if mid > 0 && mid <= i32::MAX as i64 {
+                v.push(mid as i32);
+            }
+        }
+    }
     v.sort_unstable();
     v.dedup();
     v.retain(|x| *x != orig);
@@ -367,10 +387,18 @@ pub fn inputs(tier: Tier, bs: &[Base]) -> Vec<Input> {
         }
         for k in 0..=kmax {
             v.push(Input { base: bi, on_shp: true, m: Mutation::Ladder { k, which: 10 } });
+            v.push(Input { base: bi, on_shp: true, m: Mutation::Ladder { k, which: 12 } });
         }
         // the complete Reader next to an attribute table whose header lies about its row count
         for declared in [0u32, 1, 2, 4, 1 << 10, 1 << 16, 1 << 21, 1 << 24, 1 << 28, u32::MAX] {
             v.push(Input { base: bi, on_shp: true, m: Mutation::DbfRows(declared) });
+        }
+        if bi == 0 {
+            for version in [0x30u8, 0xF5, 0x31, 0x83, 0x8B] {
+                for declared in [0u32, 8, 1 << 16, 1 << 22, 1 << 26, 1 << 30, u32::MAX] {
+                    v.push(Input { base: bi, on_shp: true, m: Mutation::Memo { version, declared } });
+                }
+            }
         }
         // runs of 2^k zeroed index entries (11)
         for k in 0..=tier.pick(14, 16) {
@@ -435,7 +463,7 @@ pub fn materialise(bs: &[Base], inp: &Input) -> Option<(Vec<u8>, Vec<u8>)> {
                 bytes.extend(&bs[*other].shp[4..]);
             }
             Mutation::Cross { .. } => unreachable!(),
-            Mutation::DbfRows(_) => {}
+            Mutation::DbfRows(_) | Mutation::Memo { .. } => {}
             Mutation::Ladder { k, which } => {
                 let n: i64 = 1i64 << k;
                 if *which == 11 {
@@ -518,7 +546,7 @@ pub fn materialise(bs: &[Base], inp: &Input) -> Option<(Vec<u8>, Vec<u8>)> {
                     if *which == 7 && fam == Family::Multipoint {
                         return None;
                     }
-                    if (*which == 8 || *which == 9 || *which == 10) && fam == Family::Multipoint {
+                    if (*which == 8 || *which == 9 || *which == 10 || *which == 12) && fam == Family::Multipoint {
                         return None;
                     }
                     // 8 / 9: an honest first part of 1025 / 3000 points that are really there, then a last part declaring n more
@@ -533,6 +561,8 @@ pub fn materialise(bs: &[Base], inp: &Input) -> Option<(Vec<u8>, Vec<u8>)> {
                         8 | 9 => (2, real + n),
                         // no part at all, n points
                         10 => (0, n),
+                        // two parts, the FIRST one declaring n points, the last one 2
+                        12 => (2, n + 2),
                         _ => (n, n),
                     };
                     let mut size: i64 = 4 + 32 + 4; // type, box, numpoints
@@ -571,6 +601,14 @@ pub fn materialise(bs: &[Base], inp: &Input) -> Option<(Vec<u8>, Vec<u8>)> {
                             bytes.extend((i as f64).to_le_bytes());
                             bytes.extend((-(i as f64)).to_le_bytes());
                         }
+                    } else if *which == 12 {
+                        bytes.extend(0i32.to_le_bytes());
+                        bytes.extend((n as i32).to_le_bytes());
+                        if fam == Family::Multipatch {
+                            bytes.extend(0i32.to_le_bytes());
+                            bytes.extend(1i32.to_le_bytes());
+                        }
+                        bytes.extend([0u8; 48]);
                     } else if *which == 10 {
                         // what little follows is not what is declared (for small n it is more than declared)
                         bytes.extend([0u8; 64]);
@@ -820,7 +858,73 @@ pub fn run_input(prop: Prop, bs: &[Base], inp: &Input) -> Option<CaseResult> {
     if let Mutation::DbfRows(declared) = &inp.m {
         return Some(drive_complete(prop, &shp, &shx, *declared));
     }
+    if let Mutation::Memo { version, declared } = &inp.m {
+        return Some(drive_memo(prop, &shp, &shx, *version, *declared));
+    }
     Some(drive(prop, &shp, &shx, header_ty(&shp)))
+}
+
+/// The data set on disk, its attribute table having a memo field and a memo companion file, read by path.
+pub fn drive_memo(prop: Prop, shp: &[u8], shx: &[u8], version: u8, declared: u32) -> CaseResult {
+    let backlink: u16 = if (0x30..=0x32).contains(&version) { 263 } else { 0 };
+    let mut dbf = vec![version, 124, 1, 1];
+    dbf.extend_from_slice(&1u32.to_le_bytes());
+    dbf.extend_from_slice(&(32 + 32 + 1 + backlink).to_le_bytes());
+    dbf.extend_from_slice(&(if version & 0x0F == 0x03 || version == 0x8B { 11u16 } else { 5 }).to_le_bytes());
+    dbf.extend_from_slice(&[0u8; 20]);
+    let mut name = [0u8; 11];
+    name[..4].copy_from_slice(b"NOTE");
+    dbf.extend_from_slice(&name);
+    dbf.push(b'M');
+    dbf.extend_from_slice(&[0u8; 4]);
+    let foxpro = dbf[10] == 5;
+    dbf.push(if foxpro { 4 } else { 10 });
+    dbf.push(0);
+    dbf.extend_from_slice(&[0u8; 14]);
+    dbf.push(0x0D);
+    dbf.extend(std::iter::repeat(0u8).take(backlink as usize));
+    dbf.push(b' ');
+    if foxpro {
+        dbf.extend_from_slice(&1u32.to_le_bytes());
+    } else {
+        dbf.extend_from_slice(b"         1");
+    }
+    dbf.push(0x1A);
+    let mut memo = vec![];
+    memo.extend_from_slice(&2u32.to_le_bytes());
+    memo.extend_from_slice(&0u16.to_be_bytes());
+    memo.extend_from_slice(&8u16.to_be_bytes());
+    memo.extend_from_slice(&1u32.to_be_bytes());
+    memo.extend_from_slice(&declared.to_be_bytes());
+    memo.extend_from_slice(b"a memo!!");
+    let dir = crate::props::c01_c02::scratch_dir().join(format!("memo-{:02x}-{}", version, declared));
+    let _ = std::fs::create_dir_all(&dir);
+    let total = shp.len() + shx.len() + dbf.len() + memo.len();
+    let mut m = Meter { budget: 64 * total + 64 * 1024, prop, findings: vec![], calls: 0, out: Fnv::new() };
+    for ext in ["fpt", "dbt"] {
+        let _ = std::fs::remove_file(dir.join("set.fpt"));
+        let _ = std::fs::remove_file(dir.join("set.dbt"));
+        let ok = [("shp", shp), ("shx", shx), ("dbf", &dbf[..]), (ext, &memo[..])].iter().all(|(e, b)| std::fs::write(dir.join(format!("set.{}", e)), b).is_ok());
+        if !ok {
+            eprintln!("vcheck: cannot write the data set under {}", dir.display());
+            std::process::exit(2);
+        }
+        let path = dir.join("set.shp");
+        let n = m.call(&format!("shapefile::read(.{})", ext), || shapefile::read(&path).map(|v| v.len()));
+        m.out.u64(match n {
+            Some(Ok(n)) => n as u64 + 1,
+            Some(Err(_)) => 0,
+            None => u64::MAX,
+        });
+        if let Some(Ok(mut r)) = m.call(&format!("Reader::from_path(.{})", ext), || shapefile::Reader::from_path(&path)) {
+            if let Some(mut it) = m.call("iter_shapes_and_records()", || r.iter_shapes_and_records()) {
+                m.drain(&format!("from_path(.{}).iter_shapes_and_records", ext), total + 16, &mut it, |_| {});
+            }
+        }
+    }
+    let _ = std::fs::remove_dir_all(&dir);
+    crate::props::c01_c02::cleanup_scratch();
+    CaseResult { findings: m.findings, lib_calls: m.calls, outcome: m.out.finish() }
 }
 
 /// The complete Reader over the files and an attribute table of three real rows whose header declares `declared`.
